@@ -42,8 +42,7 @@ def evaluate(mod, lines, wd, tag, env=None):
     if getattr(mod, "MODEL_AFTER_IMPL", False):
         # history-acceptance flow: the implementation runs first; the model is asked for the set of
         # outcomes it allows for what was observed of the run (release order, completions)
-        impl = run_sharded(HARNESS_BIN, lines, wd, tag + "-impl", timeout=mod_timeout(mod), env=e,
-                           shards=getattr(mod, "IMPL_SHARDS", NPROC), per_shard=getattr(mod, "PER_SHARD", 64))
+        impl = run_impl(mod, lines, wd, tag, e)
         model = run_sharded(DRIVER_BIN, [mod.model_line(c, o) for c, o in zip(lines, impl)], wd, tag + "-model",
                             timeout=mod_timeout(mod), per_shard=getattr(mod, "PER_SHARD", 64))
         spec = []
@@ -59,27 +58,7 @@ def evaluate(mod, lines, wd, tag, env=None):
         impl_lines = [mod.hint(c, m) for c, m in zip(lines, model)]
     else:
         impl_lines = lines
-    impl = run_sharded(HARNESS_BIN, impl_lines, wd, tag + "-impl", timeout=mod_timeout(mod), env=e,
-                       shards=getattr(mod, "IMPL_SHARDS", NPROC), per_shard=getattr(mod, "PER_SHARD", 64))
-    if getattr(mod, "RERUN_AFTER_DEATH", True):
-        # a case that kills the executor takes the rest of its shard with it: the first dead case is
-        # the culprit (ABORT), the ones behind it are run again
-        rounds = 0
-        while rounds < 6 and any(x.startswith("EXECUTOR-DIED") for x in impl):
-            rounds += 1
-            dead = [i for i, x in enumerate(impl) if x.startswith("EXECUTOR-DIED")]
-            # (a case reported as HANG-IN-CASE by the harness watchdog is itself the culprit of the exit)
-            firsts = [i for i in dead if (i == 0 or not impl[i - 1].startswith("EXECUTOR-DIED"))
-                      and not (i > 0 and impl[i - 1].startswith("HANG-IN-CASE"))]
-            for i in firsts:
-                impl[i] = "ABORT " + impl[i]
-            rest = [i for i in dead if i not in firsts]
-            if not rest:
-                break
-            again = run_sharded(HARNESS_BIN, [impl_lines[i] for i in rest], wd, tag + "-impl-r%d" % rounds,
-                                timeout=mod_timeout(mod), env=e, shards=getattr(mod, "IMPL_SHARDS", NPROC), per_shard=getattr(mod, "PER_SHARD", 64))
-            for i, x in zip(rest, again):
-                impl[i] = x
+    impl = run_impl(mod, impl_lines, wd, tag, e)
     if hasattr(mod, "oracle"):
         spec = []
         for c, o in zip(lines, impl):
@@ -91,6 +70,39 @@ def evaluate(mod, lines, wd, tag, env=None):
         spec_in = ["spec:%s %s | %s" % (mod.ID, c, o) for c, o in zip(lines, impl)]
         spec = run_sharded(DRIVER_BIN, spec_in, wd, tag + "-spec", timeout=mod_timeout(mod))
     return impl, model, spec
+
+
+def run_impl(mod, impl_lines, wd, tag, e):
+    """Runs the implementation on the case lines. A case that kills the executor (abort, or the watchdog's
+    exit after HANG-IN-CASE) takes the rest of its process's cases with it: the first dead case of a process is
+    the culprit (ABORT), the ones behind it are run again."""
+    groups = []
+    kw = dict(timeout=mod_timeout(mod), env=e, shards=getattr(mod, "IMPL_SHARDS", NPROC), per_shard=getattr(mod, "PER_SHARD", 64))
+    impl = run_sharded(HARNESS_BIN, impl_lines, wd, tag + "-impl", groups_out=groups, **kw)
+    if not getattr(mod, "RERUN_AFTER_DEATH", True):
+        return impl
+    rounds = 0
+    while rounds < 6 and any(x.startswith("EXECUTOR-DIED") for x in impl):
+        rounds += 1
+        dead = [i for i, x in enumerate(impl) if x.startswith("EXECUTOR-DIED")]
+        firsts = []
+        for g in groups:
+            for pos, i in enumerate(g):
+                if impl[i].startswith("EXECUTOR-DIED"):
+                    if not (pos > 0 and impl[g[pos - 1]].startswith("HANG-IN-CASE")):
+                        firsts.append(i)
+                    break
+        for i in firsts:
+            impl[i] = "ABORT " + impl[i]
+        rest = [i for i in dead if i not in firsts]
+        if not rest:
+            break
+        g2 = []
+        again = run_sharded(HARNESS_BIN, [impl_lines[i] for i in rest], wd, tag + "-impl-r%d" % rounds, groups_out=g2, **kw)
+        groups = [[rest[j] for j in g] for g in g2]
+        for i, x in zip(rest, again):
+            impl[i] = x
+    return impl
 
 
 def mod_timeout(mod):
